@@ -10,12 +10,13 @@ mod node;
 mod ops;
 mod run;
 mod sexp;
+mod swap;
 mod types;
 
 use gen::{gen_val, sequences, LimitGen, RandGen};
 use hx_common::{Args, Recorder, Rng};
 use run::{parse_header, CaseOut, Cx, FixedOps, OpSource, Prop};
-use sexp::{parse_path, Shape};
+use sexp::{parse_path, print_path, Shape, Step, Val};
 use std::collections::BTreeMap;
 use types::{registry, TypeEntry};
 
@@ -33,7 +34,11 @@ impl Runner<'_> {
             Some(e) => {
                 *self.cases_by_shape.entry(e.id.to_string()).or_default() += 1;
                 self.cx.rec.bump(&format!("shape:{}", e.id));
-                (e.run)(header, &hdr, src, &mut self.cx)
+                if hdr.swap {
+                    (e.run_swap)(header, &hdr, src, &mut self.cx)
+                } else {
+                    (e.run)(header, &hdr, src, &mut self.cx)
+                }
             }
             None => {
                 // unknown shape: header answered `case`, every line `bad-op`
@@ -49,7 +54,7 @@ impl Runner<'_> {
                     lines.push(l);
                     n += 1;
                 }
-                CaseOut { lines, grow_calls: 0, failed: false }
+                CaseOut { lines, grow_calls: 0, failed: false, states: vec![] }
             }
         }
     }
@@ -105,9 +110,10 @@ impl Runner<'_> {
         if base.lines.is_empty() {
             return 0;
         }
-        let head = base.lines[0].split(" refuse=").next().unwrap().to_string();
+        let layout = if base.lines[0].contains(" layout=end") { " layout=end" } else { "" };
+        let head = base.lines[0].split(" refuse=").next().unwrap().replace(" layout=end", "").replace(" layout=start", "");
         for k in 1..=base.grow_calls.min(max_k) {
-            let header = format!("{head} refuse={k}");
+            let header = format!("{head} refuse={k}{layout}");
             let mut src = FixedOps { lines: base.lines[1..].to_vec(), pos: 0 };
             self.cx.rec.bump("source:refusal_rerun");
             self.run(&header, &mut src);
@@ -120,6 +126,213 @@ impl Runner<'_> {
 fn header_for(e: &TypeEntry, id: &str, rng: &mut Rng, default_init: bool) -> String {
     let v = if default_init { e.shape.default_val() } else { gen_val(&e.shape, rng, 0) };
     format!("case {id} {} {}", e.shape_s, v.print())
+}
+
+/// thorough tier of C03: a reduced batch of the same generators under valgrind (supporting evidence)
+fn valgrind_batch(args: &Args) {
+    let exe = std::env::current_exe().expect("current_exe");
+    let vout = args.out.join("valgrind");
+    let _ = std::fs::create_dir_all(&vout);
+    let res = std::process::Command::new("valgrind")
+        .args(["--error-exitcode=97", "--leak-check=no"])
+        .arg(&exe)
+        .args(["C03", "--tier", "quick", "--seed", &args.seed.to_string(), "--out"])
+        .arg(&vout)
+        .env("HX_UNSIZED_WORKER", "1")
+        .env("HX_C03_REDUCED", "1")
+        .output();
+    let (ran, errors, exit, cases) = match res {
+        Ok(o) => {
+            let err = String::from_utf8_lossy(&o.stderr);
+            let n = err
+                .lines()
+                .rev()
+                .find_map(|l| l.split("ERROR SUMMARY: ").nth(1).and_then(|r| r.split(' ').next().and_then(|x| x.replace(',', "").parse::<u64>().ok())));
+            let cases = std::fs::read_to_string(vout.join("stats.json"))
+                .ok()
+                .and_then(|t| serde_json::from_str::<serde_json::Value>(&t).ok())
+                .and_then(|v| v["evaluations"].as_u64());
+            (true, n, o.status.code(), cases)
+        }
+        Err(_) => (false, None, None, None),
+    };
+    let sp = args.out.join("stats.json");
+    if let Ok(t) = std::fs::read_to_string(&sp) {
+        if let Ok(mut v) = serde_json::from_str::<serde_json::Value>(&t) {
+            v["valgrind_ran"] = serde_json::json!(ran);
+            v["valgrind_errors"] = serde_json::json!(errors);
+            v["valgrind_exit"] = serde_json::json!(exit);
+            v["valgrind_cases"] = serde_json::json!(cases);
+            let _ = std::fs::write(&sp, serde_json::to_string_pretty(&v).unwrap());
+        }
+    }
+    let _ = std::fs::remove_dir_all(&vout);
+}
+
+fn node_paths(shape: &Shape, val: &Val, prefix: &mut Vec<Step>, depth: usize, out: &mut Vec<(Vec<Step>, String)>) {
+    if shape.is_fixed() {
+        // fixed-size enum payloads are reachable (`v`), other fixed parts are not addressable
+    }
+    out.push((prefix.clone(), shape.print()));
+    if depth == 0 {
+        return;
+    }
+    match (shape, val) {
+        (Shape::Struct(_, fs), Val::Struct(_, vs)) => {
+            for (i, (f, v)) in fs.iter().zip(vs).enumerate() {
+                prefix.push(Step::Field(i));
+                node_paths(f, v, prefix, depth - 1, out);
+                prefix.pop();
+            }
+        }
+        (Shape::UList(e), Val::UList(vs)) => {
+            for (i, v) in vs.iter().enumerate().take(3) {
+                prefix.push(Step::Elem(i));
+                node_paths(e, v, prefix, depth - 1, out);
+                prefix.pop();
+            }
+        }
+        (Shape::UMap(_, e), Val::UMap(kvs)) => {
+            for (i, (_, v)) in kvs.iter().enumerate().take(3) {
+                prefix.push(Step::Elem(i));
+                node_paths(e, v, prefix, depth - 1, out);
+                prefix.pop();
+            }
+        }
+        (Shape::Enum(vars), Val::Enum(i, Some(p))) => {
+            if let Some(ps) = vars[*i].1.as_ref() {
+                prefix.push(Step::Variant);
+                node_paths(ps, p, prefix, depth - 1, out);
+                prefix.pop();
+            }
+        }
+        _ => {}
+    }
+}
+
+/// C03 case generation: guard-page layouts, sizes 0/1, growth limit, refusals, swap enumeration.
+fn gen_c03(runner: &mut Runner, rng: &mut Rng, args: &Args, extra: &mut BTreeMap<String, serde_json::Value>) {
+    let reg = runner.reg;
+    let thorough = args.thorough();
+    let reduced = std::env::var("HX_C03_REDUCED").is_ok();
+    let lay = |end: bool| if end { " layout=end" } else { " layout=start" };
+    // ---- initial sizes 0 and 1
+    for (tid, init) in [("T12", "-"), ("T01", "[]"), ("T34", "<0>"), ("T10", "[]"), ("T06", "[]"), ("T08", "[]")] {
+        let e = reg.iter().find(|e| e.id == tid).unwrap();
+        for end in [false, true] {
+            let header = format!("case size01-{tid}{} {} {init}{}", end as u8, e.shape_s, lay(end));
+            runner.cx.rec.bump("source:size01");
+            let base = runner.run(&header, &mut RandGen::new(rng.fork(), 30));
+            runner.refusal_reruns(&base, 6);
+        }
+    }
+    // ---- exhaustive short sequences
+    let mut nseq = 0u64;
+    if !reduced {
+        for (tid, init, alphabet) in EXHAUSTIVE {
+            let e = reg.iter().find(|e| e.id == *tid).unwrap();
+            let n = if thorough { 3 } else { 2 };
+            for (j, seq) in sequences(alphabet, n).into_iter().enumerate() {
+                let header = format!("case x{n}-{tid}-{j} {} {init}{}", e.shape_s, lay(j % 2 == 1));
+                runner.cx.rec.bump("source:exhaustive");
+                runner.run(&header, &mut FixedOps { lines: seq, pos: 0 });
+                nseq += 1;
+            }
+        }
+    }
+    extra.insert("exhaustive_sequences".into(), serde_json::json!(nseq));
+    // ---- random histories, every 4th with refusal reruns
+    let ncases = if reduced { 60 } else if thorough { 10_000 } else { 400 };
+    let mut reruns = 0u64;
+    for i in 0..ncases {
+        let e = &reg[(i + rng.below(3) as usize) % reg.len()];
+        let v = if rng.chance(1, 2) { e.shape.default_val() } else { gen_val(&e.shape, rng, 0) };
+        let header = format!("case r{}-{i}-{} {} {}{}", args.seed, e.id, e.shape_s, v.print(), lay(i % 2 == 1));
+        let max_ops = 10 + rng.below(30) as usize;
+        runner.cx.rec.bump("source:random");
+        let mut g = RandGen::new(rng.fork(), max_ops);
+        if i % 3 == 2 {
+            g.scope_pct = 25;
+        }
+        let base = runner.run(&header, &mut g);
+        if i % 4 == 0 {
+            reruns += runner.refusal_reruns(&base, 12);
+        }
+    }
+    extra.insert("refusal_reruns".into(), serde_json::json!(reruns));
+    // ---- swap cases: every swap position of a few histories per curated type
+    let nhist = if reduced { 1 } else if thorough { 8 } else { 2 };
+    let pairs_per_pos = if thorough { 8 } else { 4 };
+    let mut nswap = 0u64;
+    for e in reg.iter() {
+        for h in 0..nhist {
+            // history from a scratch run (not recorded)
+            let v = if h % 2 == 0 { gen_val(&e.shape, rng, 0) } else { e.shape.default_val() };
+            let header = format!("case scratch {} {}", e.shape_s, v.print());
+            let mut scratch = Recorder::new("");
+            let hist = {
+                let mut cx = Cx { rec: &mut scratch, prop: Prop::C03, journal: None };
+                let hdr = parse_header(&header);
+                let mut g = RandGen::new(rng.fork(), 6 + rng.below(5) as usize);
+                g.scope_pct = if h % 2 == 0 { 9 } else { 30 };
+                (e.run)(&header, &hdr, &mut g, &mut cx)
+            };
+            let ops = &hist.lines[1..];
+            let vb = if h % 4 == 3 { gen_val(&e.shape, rng, 0) } else { v.clone() };
+            for k in 0..=ops.len() {
+                let Some((model, innermost)) = hist.states.get(k) else { continue };
+                let Some((sh, va)) = sexp::get_at(&e.shape, model, innermost) else { continue };
+                let mut nodes = vec![];
+                node_paths(sh, va, &mut vec![], 3, &mut nodes);
+                let mut pairs: Vec<(Vec<Step>, Vec<Step>)> = vec![];
+                for (i, (p, s)) in nodes.iter().enumerate() {
+                    pairs.push((p.clone(), p.clone()));
+                    for (q, s2) in nodes.iter().skip(i + 1) {
+                        if s == s2 {
+                            pairs.push((p.clone(), q.clone()));
+                        }
+                    }
+                }
+                // a random subset
+                while pairs.len() > pairs_per_pos {
+                    let j = rng.below(pairs.len() as u64) as usize;
+                    pairs.swap_remove(j);
+                }
+                for (pa, pb) in pairs {
+                    let mut lines = vec![];
+                    for l in &ops[..k] {
+                        lines.push(format!("A {l}"));
+                        lines.push(format!("B {l}"));
+                    }
+                    lines.push(format!("swap {} {}", print_path(&pa), print_path(&pb)));
+                    for l in &ops[k..] {
+                        lines.push(format!("A {l}"));
+                        lines.push(format!("B {l}"));
+                    }
+                    lines.push("A end".into());
+                    lines.push("B end".into());
+                    let header = format!("case sw-{}-{h}-{k}-{nswap} swap {} {} {}{}", e.id, e.shape_s, v.print(), vb.print(), lay(nswap % 2 == 1));
+                    runner.cx.rec.bump("source:swap");
+                    runner.run(&header, &mut FixedOps { lines, pos: 0 });
+                    nswap += 1;
+                }
+            }
+        }
+    }
+    extra.insert("swap_cases".into(), serde_json::json!(nswap));
+    // ---- growth to exactly orig+10240 and one past, both layouts (last: a broken build dies here on a guard
+    //      page, which ends the run; the cheaper gates above should have spoken first)
+    for (i, (tid, path)) in LIMITS.iter().enumerate() {
+        let e = reg.iter().find(|e| e.id == *tid).unwrap();
+        for two_phase in [false, true] {
+            for end in [false, true] {
+                let v = if two_phase { gen_val(&e.shape, rng, 0) } else { e.shape.default_val() };
+                let header = format!("case limit{i}{}{}-{tid} {} {}{}", if two_phase { "b" } else { "a" }, end as u8, e.shape_s, v.print(), lay(end));
+                runner.cx.rec.bump("source:limit");
+                runner.run(&header, &mut LimitGen { path: parse_path(path).unwrap(), step: 0, two_phase });
+            }
+        }
+    }
 }
 
 const EXHAUSTIVE: &[(&str, &str, &[&str])] = &[
@@ -159,6 +372,9 @@ fn main() {
             .expect("spawn worker");
         if status.success() {
             let _ = std::fs::remove_file(&journal_path);
+            if args.prop == "C03" && args.thorough() && args.replay.is_none() {
+                valgrind_batch(&args);
+            }
             return;
         }
         let text = std::fs::read_to_string(&journal_path).unwrap_or_default();
@@ -169,7 +385,13 @@ fn main() {
         for l in lines {
             rec.op(l, "crash");
         }
-        rec.fail("crash", &format!("the harness worker died ({status}) while running the last line of this case"));
+        // interim input class: a swap case in which a set_data_inner op followed the swap
+        let jl: Vec<&str> = text.lines().collect();
+        let swap_pos = jl.iter().position(|l| l.starts_with("swap "));
+        let sdi = header.contains(" swap ")
+            && swap_pos.is_some_and(|p| jl[p + 1..].iter().any(|l| l.get(2..).is_some_and(swap::is_set_data_inner_line)));
+        let class = if sdi { "swap_set_data_inner_unchecked" } else { "crash" };
+        rec.fail(class, &format!("the harness worker died ({status}) while running the last line of this case"));
         rec.mark_nontrivial();
         rec.extra.insert("worker_crashed".into(), serde_json::json!(true));
         rec.finish(&args);
@@ -181,7 +403,8 @@ fn main() {
         "C01" => Prop::C01,
         "C02" => Prop::C02,
         "C06" => Prop::C06,
-        other => panic!("unknown property {other} (hx-unsized handles C01, C02, C06)"),
+        "C03" => Prop::C03,
+        other => panic!("unknown property {other} (hx-unsized handles C01, C02, C03, C06)"),
     };
     let reg = registry();
     let rule = "case performed at least one resize that changed the data length, or took an error path (index/range/prefix overflow/growth limit/refused growth)";
@@ -210,8 +433,13 @@ fn main() {
             Prop::C06 => {
                 runner.run_corpus("C06");
             }
+            Prop::C03 => {
+                runner.run_corpus("C03");
+            }
         }
-        if prop != Prop::C06 {
+        if prop == Prop::C03 {
+            gen_c03(&mut runner, &mut rng, &args, &mut extra);
+        } else if prop != Prop::C06 {
             // ---- 2. boundary: growth to exactly orig+10240 and one past
             for (i, (tid, path)) in LIMITS.iter().enumerate() {
                 let e = reg.iter().find(|e| e.id == *tid).unwrap();
